@@ -70,9 +70,17 @@ def runeError : Nat := 0xFFFD
 
 def isCont (b : UInt8) : Bool := 0x80 ≤ b && b ≤ 0xBF
 
+/-- acceptRanges of unicode/utf8 for the second byte of a three-byte sequence
+    (E0: A0..BF excludes overlong forms, ED: 80..9F excludes surrogates) -/
+def accept3 (b0 b1 : UInt8) : Bool :=
+  (if b0 == 0xE0 then 0xA0 else 0x80) ≤ b1 && b1 ≤ (if b0 == 0xED then 0x9F else 0xBF)
+
+/-- … and of a four-byte sequence (F0: 90..BF, F4: 80..8F keeps the rune ≤ 0x10FFFF) -/
+def accept4 (b0 b1 : UInt8) : Bool :=
+  (if b0 == 0xF0 then 0x90 else 0x80) ≤ b1 && b1 ≤ (if b0 == 0xF4 then 0x8F else 0xBF)
+
 /-- utf8.DecodeRune / DecodeRuneInString: (rune, size); invalid or short input gives
-    (RuneError, 1), empty input (RuneError, 0).  Surrogates and overlong forms are invalid
-    (the `acceptRanges` of the Go table are the bounds on the second byte). -/
+    (RuneError, 1), empty input (RuneError, 0). -/
 def decodeRune : Bytes → Nat × Nat
   | [] => (runeError, 0)
   | b0 :: r =>
@@ -85,18 +93,14 @@ def decodeRune : Bytes → Nat × Nat
     else if 0xE0 ≤ b0 && b0 ≤ 0xEF then
       match r with
       | b1 :: b2 :: _ =>
-        let lo : UInt8 := if b0 == 0xE0 then 0xA0 else 0x80
-        let hi : UInt8 := if b0 == 0xED then 0x9F else 0xBF
-        if lo ≤ b1 && b1 ≤ hi && isCont b2 then
+        if accept3 b0 b1 && isCont b2 then
           ((b0.toNat % 16) * 4096 + (b1.toNat % 64) * 64 + b2.toNat % 64, 3)
         else (runeError, 1)
       | _ => (runeError, 1)
     else if 0xF0 ≤ b0 && b0 ≤ 0xF4 then
       match r with
       | b1 :: b2 :: b3 :: _ =>
-        let lo : UInt8 := if b0 == 0xF0 then 0x90 else 0x80
-        let hi : UInt8 := if b0 == 0xF4 then 0x8F else 0xBF
-        if lo ≤ b1 && b1 ≤ hi && isCont b2 && isCont b3 then
+        if accept4 b0 b1 && isCont b2 && isCont b3 then
           ((b0.toNat % 8) * 262144 + (b1.toNat % 64) * 4096 + (b2.toNat % 64) * 64 + b3.toNat % 64, 4)
         else (runeError, 1)
       | _ => (runeError, 1)
